@@ -116,6 +116,18 @@ pub fn eval(case: &str) -> Out {
             }
             _ => {}
         }
+        // the digest of the algorithms must not depend on what the cache object answered before: the same query on a cache that has first
+        // answered a segwit-v0 query and a taproot SIGHASH_SINGLE / SIGHASH_ALL query for ANOTHER input (and output) must give the fresh answer.
+        // (C13 states this for arbitrary histories; here it keeps a digest that is wrong only on a used cache from passing as "follows the algorithm".)
+        if digest.starts_with("ok:") && tx.input.len() == spent.len() && !tx.input.is_empty() {
+            let other = match op { Op::Legacy(i, ..) | Op::Segwit(i, ..) | Op::Taproot(i, ..) | Op::Key(i, ..) | Op::ScriptSpend(i, ..) | Op::ScriptPathSpend(i, ..) => (*i + 1) % tx.input.len(), Op::Wit(..) => 0 };
+            let mut used = SighashCache::new(&tx);
+            let _ = query(&mut used, &Op::Segwit(other, 0x01, vec![0x51], Value::Explicit(1)), &spent, genesis);
+            let _ = query(&mut used, &Op::Taproot(other, 0x03, Pv::All, None, None), &spent, genesis);
+            let _ = query(&mut used, &Op::Taproot(other, 0x81, Pv::All, None, None), &spent, genesis);
+            let again = query(&mut used, op, &spent, genesis);
+            if again != digest { fails.push(format!("digest-depends-on-cache-history|query {} ({}): {} on a fresh cache but {} after the cache answered queries for input {}", k, show_op(op), digest, again, other)); }
+        }
         if let Some(e) = &expect { if let Some(x) = e.get(k) { if *x != "-" && digest != format!("ok:{}", x) {
             fails.push(format!("pinned-vector|query {} ({}): the repository's pinned digest is {}, the library returns {}", k, show_op(op), x, digest)); } } }
         answers.push(format!("{},{},{}", digest, pre, marker));
